@@ -54,6 +54,8 @@ Definition mx_reader (k : kind) (rep : bool) (field : Z) (data : bytes) (init : 
     let '(st, v) := dec_single k field st0 (match init with v :: _ => v | [] => VInt 0 end) in
     (pf st, pw st, Z.of_nat (length (buf st)), err st, [v]).
 
+Definition mx_writer_enum (num : Z) (vs : list val) : result bytes := enc_repeated_enum num (map as_int vs) [].
+
 (* picoconv on (seconds, nanos) *)
 Definition mx_dur_join := dur_join.
 Definition mx_dur_split := dur_split.
@@ -62,7 +64,7 @@ Definition mx_enc_duration (d : Z) := enc_duration 1 d [].
 Definition mx_enc_timestamp (sec nsec : Z) := enc_timestamp 1 sec nsec [].
 
 Extraction "model.ml"
-  mx_writer mx_reader mx_dur_join mx_dur_split mx_time_unix mx_enc_duration mx_enc_timestamp
+  mx_writer mx_writer_enum mx_reader mx_dur_join mx_dur_split mx_time_unix mx_enc_duration mx_enc_timestamp
   Z.add Z.mul Z.sub Z.opp Z.of_nat Z.to_nat Z.div_eucl Z.eqb Z.ltb Z.compare
   mx_bitset_run mx_fn_string
   mx_gen_all mx_msg_ok mx_marshal mx_unmarshal mx_zero mx_norm mx_ref_encode mx_ref_decode mx_wf_input
